@@ -107,7 +107,7 @@ def check(case):
     if not np.isfinite(nrm):
         res.discarded = True
         return res
-    dt = P['theta'] / max(nrm, 1e-300)
+    dt = P["theta"] / (nrm if nrm > 0 else 1.0)
     # Dirichlet data
     dvals = []
     for ax, e in enumerate(P['bc']):
